@@ -6,6 +6,8 @@
   with a read step followed by a write step (witness schedules, replayed on the implementation).
 -/
 import SugarModel.Model.Sched
+import SugarModel.Lemmas.SchedCommute
+import SugarModel.Lemmas.Footprint
 namespace Sugar.Props.C05
 open Sugar Sugar.Sched
 
@@ -227,5 +229,142 @@ theorem lpush_lost_element_witness :
     let s : State := { dbs := [(0, ⟨[(b "l", ⟨.list [b "x"], none⟩)], []⟩)], mem := 0 }
     ((interleave c1 c2 [b "lpush", b "l", b "p"] [b "lpush", b "l", b "q"] [true, false, true, false, true, false] s).map
       fun r => r.post.lookup 0 (b "l")) = some (some ⟨.list [b "q", b "x"], none⟩) := by decide
+
+/-! ### the second positive result: commands with disjoint key footprints are serializable under every schedule
+
+  Footprints: `Prim.keys` / `Prog.Within` (Lemmas.SchedCommute). States are compared up to `State.Equiv`
+  (same cells, same volatile-index membership, same databases, same memory counter, same connection table):
+  two writes to different keys leave association lists that differ only in order.
+  Standing assumptions (`Inv`, and no memory limit): each is necessary — see the witnesses below. -/
+
+/-- **Commands with disjoint key footprints are serializable under every schedule.**
+    Two clients whose programs issue only key-local primitives, A inside `KA` and B inside `KB`, with
+    footprints that cannot meet (different databases, or disjoint key sets); no memory limit, both databases
+    present, no shared set object. Started as `interleave` starts them and driven by ANY schedule, both
+    replies are those of the serial order A-then-B, and of the serial order B-then-A, and the final state is
+    equivalent to the final state of either. -/
+theorem serializable_disjoint (cA cB : Ctx) (hmA : cA.cfg.maxMemory = 0) (hmB : cB.cfg.maxMemory = 0)
+    (KA KB : Bytes → Prop) (hd : Disjoint cA cB KA KB)
+    (pA pB : Prog Res) (hA : pA.Within KA) (hB : pB.Within KB) (sched : List Bool) (s : State) (hs : Inv cA cB s) :
+    let r := runSched cA cB sched (settle cA pA s).2 (settle cB pB (settle cA pA s).1).2 (settle cB pB (settle cA pA s).1).1 [] []
+    (r.a = (pA.run cA s).2 ∧ r.b = (pB.run cB (pA.run cA s).1).2 ∧ r.post.Equiv (pB.run cB (pA.run cA s).1).1) ∧
+    (r.b = (pB.run cB s).2 ∧ r.a = (pA.run cA (pB.run cB s).1).2 ∧ r.post.Equiv (pA.run cA (pB.run cB s).1).1) := by
+  intro r
+  -- the two threads as `interleave` produces them
+  have hwA := park_within KA pA hA
+  have hwB := park_within KB pB hB
+  have tAw : (thr ((park pA).run cA s).2).Within KA := by
+    have := rets_run (Thread.Within KA) cA _ hwA.2 s
+    cases hx : ((park pA).run cA s).2 with
+    | done a => rw [hx] at this; exact this
+    | panic w => trivial
+    | unmod w => trivial
+  have i1 : Inv cA cB ((park pA).run cA s).1 := run_inv cA cB cA (Or.inl rfl) hmA KA _ hwA.1 s hs
+  have tBw : (thr ((park pB).run cB ((park pA).run cA s).1).2).Within KB := by
+    have := rets_run (Thread.Within KB) cB _ hwB.2 ((park pA).run cA s).1
+    cases hx : ((park pB).run cB ((park pA).run cA s).1).2 with
+    | done a => rw [hx] at this; exact this
+    | panic w => trivial
+    | unmod w => trivial
+  have i2 : Inv cA cB ((park pB).run cB ((park pA).run cA s).1).1 := run_inv cA cB cB (Or.inr rfl) hmB KB _ hwB.1 _ i1
+  have hr : r = runSched cA cB sched (thr ((park pA).run cA s).2) (thr ((park pB).run cB ((park pA).run cA s).1).2)
+      ((park pB).run cB ((park pA).run cA s).1).1 [] [] := by
+    simp only [r, settle_eq]
+  obtain ⟨q1, q2, q3⟩ := runSched_serial cA cB hmA hmB KA KB hd sched _ _ _ [] [] tAw tBw i2
+  rw [← hr] at q1 q2 q3
+  -- B's own code before its first keyspace call commutes with the whole of A
+  obtain ⟨g1, g2, g3⟩ := run_comm_run cA cB hmA hmB KA KB hd (thr ((park pA).run cA s).2).prog tAw (park pB) hwB.1 _ i1
+  have hpA := run_park cA pA s
+  rw [hpA] at g1 g2 g3
+  have iA : Inv cA cB ((thr ((park pA).run cA s).2).prog.run cA ((park pB).run cB ((park pA).run cA s).1).1).1 :=
+    run_inv cA cB cA (Or.inl rfl) hmA KA _ tAw _ i2
+  obtain ⟨c1, c2⟩ := run_congr cB hmB KB (thr ((park pB).run cB ((park pA).run cA s).1).2).prog tBw _ _ iA.preB g3
+  have hpB := run_park cB pB (pA.run cA s).1
+  rw [g2] at hpB
+  have first : r.a = (pA.run cA s).2 ∧ r.b = (pB.run cB (pA.run cA s).1).2 ∧ r.post.Equiv (pB.run cB (pA.run cA s).1).1 := by
+    refine ⟨q1.trans g1, ?_, ?_⟩
+    · rw [q2, c1, hpB]
+    · refine q3.trans ?_
+      rw [← hpB]; exact c2
+  -- and the two serial orders agree with each other
+  obtain ⟨k1, k2, k3⟩ := run_comm_run cA cB hmA hmB KA KB hd pA hA pB hB s hs
+  exact ⟨first, first.2.1.trans k2, first.1.trans k1.symm, first.2.2.trans k3.symm⟩
+
+/-- **Table-level corollary**: two commands of the single-key families (GET, SET, INCR, APPEND, STRLEN,
+    LPUSH(X), RPUSH(X), LPOP, RPOP, LLEN, HSET(NX), SADD — `footprint`) on different keys, or in different
+    databases, are serializable under every schedule: `interleave` answers, for both clients, what the two
+    sequential `step`s answer in the order A, B — and in the order B, A — and ends in an equivalent state. -/
+theorem cmds_disjoint_serializable (cA cB : Ctx) (hmA : cA.cfg.maxMemory = 0) (hmB : cB.cfg.maxMemory = 0)
+    (cmdA cmdB : List Bytes) (kA kB : Bytes) (pA pB : Prog Res)
+    (fA : footprint cmdA = some kA) (fB : footprint cmdB = some kB)
+    (hpA : progOf cA cmdA = some pA) (hpB : progOf cB cmdB = some pB)
+    (hne : cA.db = cB.db → kA ≠ kB) (sched : List Bool) (s : State) (hs : Inv cA cB s) :
+    ∃ r sA oa sAB ob sB sBA,
+      interleave cA cB cmdA cmdB sched s = some r ∧
+      step cA s cmdA = some (sA, oa) ∧ step cB sA cmdB = some (sAB, ob) ∧
+      step cB s cmdB = some (sB, ob) ∧ step cA sB cmdA = some (sBA, oa) ∧
+      r.a = oa ∧ r.b = ob ∧ r.post.Equiv sAB ∧ r.post.Equiv sBA := by
+  have wA := progOf_within cA cmdA kA pA fA hpA
+  have wB := progOf_within cB cmdB kB pB fB hpB
+  have hd : Disjoint cA cB (· = kA) (· = kB) := fun e k h1 h2 => hne e (h1.symm.trans h2)
+  obtain ⟨⟨a1, a2, a3⟩, ⟨b1, b2, b3⟩⟩ := serializable_disjoint cA cB hmA hmB _ _ hd pA pB wA wB sched s hs
+  refine ⟨_, (pA.run cA s).1, (pA.run cA s).2, (pB.run cB (pA.run cA s).1).1, (pB.run cB (pA.run cA s).1).2,
+    (pB.run cB s).1, (pA.run cA (pB.run cB s).1).1, ?_, ?_, ?_, ?_, ?_, a1, a2, a3, b3⟩
+  · simp only [interleave, hpA, hpB]
+  · simp [step, hpA]
+  · simp [step, hpB]
+  · have e : (pB.run cB (pA.run cA s).1).2 = (pB.run cB s).2 := a2.symm.trans b1
+    simp only [step, hpB, Option.map_some]
+    rw [e]
+  · have e : (pA.run cA s).2 = (pA.run cA (pB.run cB s).1).2 := a1.symm.trans b2
+    simp only [step, hpA, Option.map_some]
+    rw [e]
+
+/-- **INCR n ‖ RPUSH l x** (n ≠ l, any element, any state with database 0 present and nothing shared, any
+    schedule): both replies are the sequential ones and the final state is equivalent to the sequential one. -/
+example (n l x : Bytes) (hnl : n ≠ l) (sched : List Bool) (s : State)
+    (hs : Inv { db := 0, now := 1000, conn := some 2 } { db := 0, now := 1000, conn := some 3 } s) :
+    let cA : Ctx := { db := 0, now := 1000, conn := some 2 }
+    let cB : Ctx := { db := 0, now := 1000, conn := some 3 }
+    ∃ r sA oa sAB ob sB sBA,
+      interleave cA cB [b "incr", n] [b "rpush", l, x] sched s = some r ∧
+      step cA s [b "incr", n] = some (sA, oa) ∧ step cB sA [b "rpush", l, x] = some (sAB, ob) ∧
+      step cB s [b "rpush", l, x] = some (sB, ob) ∧ step cA sB [b "incr", n] = some (sBA, oa) ∧
+      r.a = oa ∧ r.b = ob ∧ r.post.Equiv sAB ∧ r.post.Equiv sBA :=
+  cmds_disjoint_serializable _ _ rfl rfl [b "incr", n] [b "rpush", l, x] n l _ _
+    (by simp only [footprint]; rw [if_pos (by decide)]) (by simp only [footprint]; rw [if_pos (by decide)])
+    (progOf_cons _ _ _ _ (by decide) (handlerOf_incr _ (by decide)))
+    (progOf_cons _ _ _ _ (by decide) (handlerOf_rpush _ (by decide)))
+    (fun _ => hnl) sched s hs
+
+/-! ### each standing assumption of `serializable_disjoint` is needed for its conclusion (both serial orders agree) -/
+
+/-- with a memory limit the shared counter couples disjoint keys: SET a ‖ SET z — whoever runs second is refused -/
+theorem memlimit_orders_differ_witness :
+    let c : Ctx := { db := 0, now := 1000, cfg := { maxMemory := 10 } }
+    let s : State := { dbs := [(0, ⟨[], []⟩)], mem := 0 }
+    ((step c s [b "set", b "a", b "v"]).bind fun x => (step c x.1 [b "set", b "z", b "w"]).map (·.2))
+      = some (.done (.err maxMemErr)) ∧
+    ((step c s [b "set", b "z", b "w"]).bind fun x => (step c x.1 [b "set", b "a", b "v"]).map (·.2))
+      = some (.done (.err maxMemErr)) ∧
+    (step c s [b "set", b "z", b "w"]).map (·.2) = some (.done (.ok okReply)) := by decide
+
+/-- a set object shared by two keys couples them: SADD a y ‖ SCARD d, with `a` and `d` holding the same object —
+    SCARD answers 2 after the SADD and 1 before it, although the key footprints {a} and {d} are disjoint -/
+theorem shared_object_orders_differ_witness :
+    let c : Ctx := { db := 0, now := 1000 }
+    let s : State := { dbs := [(0, ⟨[(b "a", ⟨.set 7 [b "x"], none⟩), (b "d", ⟨.set 7 [b "x"], none⟩)], []⟩)], mem := 0 }
+    ((step c s [b "sadd", b "a", b "y"]).bind fun x => (step c x.1 [b "scard", b "d"]).map (·.2))
+      = some (.done (.ok (intReply 2))) ∧
+    (step c s [b "scard", b "d"]).map (·.2) = some (.done (.ok (intReply 1))) := by decide
+
+/-- an absent database couples disjoint keys at the primitive level: SetExpiry on key z panics before, and
+    succeeds after, a SetValues on key a has created the database -/
+theorem absent_db_orders_differ_witness :
+    let c : Ctx := { db := 0, now := 1000 }
+    let s : State := { dbs := [], mem := 0 }
+    ((Prim.setExpiry (b "z") (some 5000) false).exec c s).isSome = false ∧
+    (((Prim.setValues [(b "a", .str (b "v"))]).exec c s).bind fun x =>
+      ((Prim.setExpiry (b "z") (some 5000) false).exec c x.1).map fun _ => ()).isSome = true := by decide
 
 end Sugar.Props.C05
